@@ -51,7 +51,7 @@ func (c *Confirmer) TryConfirm(block *types.Block) (types.SignData, bool) {
 		return types.SignData{}, false
 	}
 
-	if block.IsConfirmExist(sig) {
+	if block.IsConfirmExist(sig) || isSignedBySelf(block) {
 		return types.SignData{}, false
 	}
 
@@ -160,6 +160,23 @@ func IsMinedByself(block *types.Block) bool {
 	return bytes.Compare(nodeID, deputynode.GetSelfNodeID()) == 0
 }
 
+// isSignedBySelf tests if this node is the miner of the block or the signer of one of its confirms. The signers are
+// recovered, because every signature has two valid encodings (s and n-s): comparing bytes is not enough, and
+// IsConfirmEnough counts every stored confirm as one more node
+func isSignedBySelf(block *types.Block) bool {
+	if IsMinedByself(block) {
+		return true
+	}
+	selfID := deputynode.GetSelfNodeID()
+	hash := block.Hash()
+	for _, confirm := range block.Confirms {
+		if nodeID, err := confirm.RecoverNodeID(hash); err == nil && bytes.Compare(nodeID, selfID) == 0 {
+			return true
+		}
+	}
+	return false
+}
+
 // TryConfirmStable try to sign and save a confirm into a stable block
 func (c *Confirmer) tryConfirmStable(block *types.Block) *types.SignData {
 	// test if we are deputy node
@@ -176,7 +193,7 @@ func (c *Confirmer) tryConfirmStable(block *types.Block) *types.SignData {
 		return nil
 	}
 
-	if block.IsConfirmExist(sig) {
+	if block.IsConfirmExist(sig) || isSignedBySelf(block) {
 		return nil
 	}
 
